@@ -14,10 +14,14 @@ pub mod c04;
 pub mod c09;
 pub mod c10;
 pub mod c11;
+pub mod c05;
 pub mod c08;
 pub mod c12;
 pub mod c13;
 pub mod c15;
+pub mod c16;
+pub mod c14;
+pub mod c17;
 pub mod c19;
 pub mod c20;
 
@@ -44,6 +48,10 @@ pub fn run(ctx: &Ctx) -> usize {
 		"C08" => c08::run(ctx),
 		"C12" => c12::run(ctx),
 		"C13" => c13::run(ctx),
+		"C16" => c16::run(ctx),
+		"C14" => c14::run(ctx),
+		"C17" => c17::run(ctx),
+		"C05" => c05::run(ctx),
 		p => panic!("unknown property {}", p),
 	}
 }
@@ -55,6 +63,10 @@ pub fn replay(ctx: &Ctx, kind: &str, params: &Value) -> Result<(), Fail> {
 		"C02" => c02::case(ctx, kind, params, false),
 		"C03" => c03::case(ctx, kind, params, false),
 		"C04" => c04::case(ctx, kind, params, false),
+		"C05" => c05::case(ctx, kind, params, false),
+		"C17" => c17::case(ctx, kind, params, false),
+		"C14" => c14::case(ctx, kind, params, false),
+		"C16" => c16::case(ctx, kind, params, false),
 		"C13" => c13::case(ctx, kind, params, false),
 		"C12" => c12::case(ctx, kind, params, false),
 		"C08" => c08::case(ctx, kind, params, false),
@@ -81,6 +93,7 @@ pub fn regress_file(ctx: &Ctx, path: &str) -> Result<(), Fail> {
 		"C02" => c02::file_case(&bytes),
 		"C03" => c03::file_case(&bytes),
 		"C04" => c04::file_case(&bytes),
+		"C17" => c17::file_case(&bytes),
 		p => panic!("unknown property {}", p),
 	}
 }
